@@ -45,6 +45,10 @@ func builtinScenarios(prop string) map[string]*Case {
 			Clients: [][]Op{nil, {{Op: "barrier"}, {Op: "add", It: p(2)}, {Op: "qpending"}}, {{Op: "add", It: g(1)}, {Op: "settle"}, {Op: "barrier"}, {Op: "qclose"}, {Op: "add", It: p(3)}, {Op: "release", N: 1}}}},
 		"cancel-vs-dispatch": {Cfg: Config{Kind: "err", Queues: []string{"std"}, Conc: 1},
 			Clients: [][]Op{nil, {{Op: "add", It: p(1)}, {Op: "add", It: p(2)}, {Op: "close", N: 2}, {Op: "wait", N: 1}, {Op: "wait", N: 2}, {Op: "status", N: 2}}, {{Op: "close", N: 2}, {Op: "status", N: 1}}}},
+		"close-running-after-racing-add": {Cfg: Config{Kind: "plain", Queues: []string{"std"}, Conc: 2},
+			Clients: [][]Op{nil, {{Op: "add", It: g(1)}, {Op: "close", N: 1}, {Op: "wait", N: 1}, {Op: "status", N: 1}}, {{Op: "add", It: p(2)}, {Op: "settle"}, {Op: "release", N: 1}}}},
+		"close-running-after-racing-add-res-prio": {Cfg: Config{Kind: "res", Queues: []string{"prio"}, Conc: 2},
+			Clients: [][]Op{nil, {{Op: "add", It: g(1)}, {Op: "close", N: 1}, {Op: "result", N: 1}, {Op: "status", N: 1}}, {{Op: "add", It: p(2)}, {Op: "settle"}, {Op: "release", N: 1}}}},
 		"purge-vs-add": {Cfg: Config{Kind: "plain", Queues: []string{"prio"}, Conc: 1},
 			Clients: [][]Op{{{Op: "pause"}, {Op: "settle"}, {Op: "resume"}}, {{Op: "add", It: p(1)}, {Op: "add", It: p(2)}, {Op: "wait", N: 2}}, {{Op: "purge"}, {Op: "qpending"}, {Op: "npend"}}}},
 		"tune-down-under-load": {Cfg: Config{Kind: "plain", Queues: []string{"std"}, Conc: 3},
@@ -69,13 +73,13 @@ func builtinScenarios(prop string) map[string]*Case {
 		"C02": {"tune-down-under-load", "stop-restart-vs-adds", "tune-down-with-idle-workers", "restart-vs-resume"},
 		"C03": {"two-adds-then-wuf", "pausewait-vs-adds", "idle-expiry", "tune-down-under-load", "wuf-vs-purge-at-last-completion"},
 		"C04": {"slow-ack-then-two-adds"},
-		"C05": {"cancel-vs-dispatch", "result-batch-of-3", "purge-vs-add", "batch-wait"},
+		"C05": {"cancel-vs-dispatch", "result-batch-of-3", "purge-vs-add", "batch-wait", "close-running-after-racing-add", "close-running-after-racing-add-res-prio"},
 		"C06": {"two-adds-then-wuf", "pausewait-vs-adds", "stop-restart-vs-adds", "purge-vs-add", "wuf-vs-purge-at-last-completion"},
 		"C07": {"result-batch-of-3"},
 		"C08": {"result-batch-of-3", "batch-wait"},
 		"C09": {"pausewait-vs-adds", "stop-restart-vs-adds"},
-		"C10": {"cancel-vs-dispatch", "purge-vs-add", "qclose-vs-add"},
-		"C16": {"cancel-vs-dispatch", "samplers"},
+		"C10": {"cancel-vs-dispatch", "purge-vs-add", "qclose-vs-add", "close-running-after-racing-add"},
+		"C16": {"cancel-vs-dispatch", "samplers", "close-running-after-racing-add"},
 		"C17": {"samplers", "purge-vs-add"},
 		"C18": {"idle-expiry", "stop-restart-vs-adds", "tune-down-under-load", "tune-down-with-idle-workers"},
 	}
